@@ -116,7 +116,9 @@ def one(ctx, cg, cgsat, props, captured, cid, spec, A):
         det = {"case": cid, "circuit": spec if len(nodes) < 25 else None, "assumptions": {k: bool(v) for k, v in asg.items()}}
         Aterm = [V[n] if b else z3.Not(V[n]) for n, b in asg.items()]
         captured.clear()
-        cnt, e = call(cgsat.model_count, build(spec), dict(asg))
+        carg = build(spec)
+        cnt, e = call(cgsat.model_count, carg, dict(asg))
+        ctx.unchanged("model_count", carg, spec)
         if e is not None:
             ctx.side("model_count-raises", False, f"model_count:raises:{type(e).__name__}", f"model_count raised {e!r}", det)
             continue
